@@ -194,6 +194,13 @@ func (s *Sim) Arm(kind FaultKind, k int, cancel context.CancelFunc) {
 	s.mu.Unlock()
 }
 
+// Fired reports whether the armed fault has fired.
+func (s *Sim) Fired() bool {
+	s.mu.Lock()
+	defer s.mu.Unlock()
+	return s.faultFired
+}
+
 // Disarm clears the fault plan and returns (events counted, fired).
 func (s *Sim) Disarm() (int, bool) {
 	s.mu.Lock()
